@@ -1,0 +1,140 @@
+//go:build verif
+
+// Package verifhook holds off-by-default observation hooks used by the
+// runtime-monitoring harness in /verif. With the build tag "verif" absent
+// every function in this package is an empty stub (see hook_off.go).
+package verifhook
+
+import (
+	"fmt"
+	"os"
+	"strconv"
+	"strings"
+)
+
+// Loop sites whose iteration counts are the logical clock for termination verdicts.
+const (
+	SiteLexEmoves = iota
+	SiteLexItemListClosure
+	SiteLexDependentsClosure
+	SiteLexItemSetsClosure
+	SiteFirstSets
+	SiteLR1Closure
+	SiteLR1ItemSets
+	numSites
+)
+
+var siteNames = [numSites]string{
+	"lex.Item.Emoves",
+	"lex.ItemList.Closure",
+	"lex.ItemSet.dependentsClosure",
+	"lex.ItemSets.Closure",
+	"first.GetFirstSets",
+	"lr1.ItemSet.Closure",
+	"lr1.GetItemSets",
+}
+
+var (
+	steps        [numSites]int64
+	budget       int64
+	classesCalls int64
+	classesTotal int64
+	classesMax   int64
+	flushed      bool
+)
+
+func init() {
+	if s := os.Getenv("VERIF_STEP_BUDGET"); s != "" {
+		if n, err := strconv.ParseInt(s, 10, 64); err == nil {
+			budget = n
+		}
+	}
+}
+
+// Step counts one iteration of the loop at site.
+func Step(site int) {
+	steps[site]++
+	if budget > 0 && steps[site] > budget {
+		fmt.Fprintf(os.Stderr, "VERIFHOOK budget-exceeded site=%s steps=%d\n", siteNames[site], steps[site])
+		Flush()
+		os.Exit(97)
+	}
+}
+
+// Classes checks the rune classes derived for one lexer state against the
+// literals/ranges expected by the items of that state: classes must be sorted,
+// pairwise disjoint and non-empty, every expected range must be exactly a union
+// of classes and every class must lie inside some expected range.
+func Classes(expected [][2]rune, classes [][2]rune) {
+	classesCalls++
+	classesTotal += int64(len(classes))
+	if int64(len(classes)) > classesMax {
+		classesMax = int64(len(classes))
+	}
+	fail := func(msg string) {
+		fmt.Fprintf(os.Stderr, "VERIFHOOK invariant C18 %s expected=%v classes=%v\n", msg, expected, classes)
+		Flush()
+		os.Exit(96)
+	}
+	for i, c := range classes {
+		if c[0] > c[1] {
+			fail(fmt.Sprintf("empty-class index=%d", i))
+		}
+		if i > 0 && classes[i-1][1] >= c[0] {
+			fail(fmt.Sprintf("unsorted-or-overlapping index=%d", i))
+		}
+		inside := false
+		for _, e := range expected {
+			if e[0] <= c[0] && c[1] <= e[1] {
+				inside = true
+				break
+			}
+		}
+		if !inside {
+			fail(fmt.Sprintf("class-outside-expected index=%d", i))
+		}
+	}
+	for _, e := range expected {
+		// walk the classes that intersect e: they must tile e exactly
+		next := e[0]
+		for _, c := range classes {
+			if c[1] < e[0] || c[0] > e[1] {
+				continue
+			}
+			if c[0] != next || c[1] > e[1] {
+				fail(fmt.Sprintf("expected-range-not-a-union-of-classes range=[%d,%d]", e[0], e[1]))
+			}
+			next = c[1] + 1
+		}
+		if next != e[1]+1 {
+			fail(fmt.Sprintf("expected-range-not-covered range=[%d,%d]", e[0], e[1]))
+		}
+	}
+}
+
+// Flush appends the counters as one JSON line to $VERIF_HOOK_LOG.
+func Flush() {
+	if flushed {
+		return
+	}
+	flushed = true
+	path := os.Getenv("VERIF_HOOK_LOG")
+	if path == "" {
+		return
+	}
+	w := new(strings.Builder)
+	fmt.Fprintf(w, `{"pid":%d,"steps":{`, os.Getpid())
+	for i := 0; i < numSites; i++ {
+		if i > 0 {
+			w.WriteString(",")
+		}
+		fmt.Fprintf(w, `%q:%d`, siteNames[i], steps[i])
+	}
+	fmt.Fprintf(w, `},"classes_calls":%d,"classes_total":%d,"classes_max":%d}`+"\n", classesCalls, classesTotal, classesMax)
+	f, err := os.OpenFile(path, os.O_APPEND|os.O_CREATE|os.O_WRONLY, 0666)
+	if err != nil {
+		return
+	}
+	f.WriteString(w.String())
+	f.Close()
+}
